@@ -46,6 +46,38 @@ class RealPB(object):
             self.handle = ServiceError(7, 'service said no')
 
 
+def _square(conn, x):
+    conn.send(x * x)
+    conn.close()
+
+
+def square_in_helper(x, how):
+    """what a replayed operation that farms work out does: computes x*x in a helper - a multiprocessing.Process of its own
+    ('process') or a thread ('thread') - and waits for it"""
+    if how == 'thread':
+        import threading
+        box = []
+        t = threading.Thread(target=lambda: box.append(x * x))
+        t.start()
+        t.join(10)
+        return box[0] if box else None
+    recv, send = multiprocessing.Pipe(False)
+    p = multiprocessing.Process(target=_square, args=(send, x))
+    p.start()
+    send.close()
+    try:
+        return recv.recv() if recv.poll(10) else None
+    finally:
+        recv.close()
+        p.join(10)
+        if p.is_alive():
+            p.kill()
+
+
+def open_fds():
+    return len(os.listdir('/proc/self/fd'))
+
+
 WATCHDOG = 15.0     # seconds after which a run that is still going is declared stuck (the scripts take < 4 s)
 
 
@@ -63,6 +95,12 @@ def run_real_once(case, dedicated=True):
         os.close(f)
         if b == 'player_raises':
             raise ValueError('boom-player')
+        if b.startswith('spawns'):
+            # the replayed operation itself uses a helper process / thread (in whichever process it is replayed)
+            x = S.unrid(r)
+            got = square_in_helper(x, 'thread' if b == 'spawns:thread' else 'process')
+            if got != x * x:
+                raise ValueError('helper returned %r' % (got,))
         if os.getpid() != parent:
             if b in ('exit0', 'exit1'):
                 raise SystemExit(int(b[4:]))
@@ -155,8 +193,42 @@ def run_real_once(case, dedicated=True):
             kill_idle_worker(k)
             t = time.time()
 
+    intr = {'cancel': False, 'sent': False}
+    if mode == 'interrupt':
+        # Ctrl-C while recording #n is being replayed: SIGINT to the whole process group, as a terminal does.  Only ever in
+        # an interpreter of its own that leads its own session (run_in_own_session): the group holds nothing else.
+        assert os.environ.get('VERIF_OWN_SESSION') == '1' and os.getsid(0) == os.getpid() == os.getpgrp()
+        import threading
+        target = S.rid(ids[n]) if n < len(ids) else None
+
+        def fire():
+            end = time.time() + 10
+            while time.time() < end and not intr['cancel']:
+                try:
+                    rows = [l.split() for l in open(log).read().splitlines()]
+                except OSError:
+                    rows = []
+                if any(len(x) == 2 and x[1] == target and int(x[0]) != parent for x in rows):
+                    break
+                time.sleep(0.05)
+            time.sleep(0.3)
+            if not intr['cancel']:
+                intr['sent'] = True
+                os.killpg(os.getpgrp(), signal.SIGINT)
+        threading.Thread(target=fire, daemon=True).start()
+
     old_handler = signal.signal(signal.SIGALRM, on_alarm)
-    signal.setitimer(signal.ITIMER_REAL, WATCHDOG, 1.0)
+    signal.setitimer(signal.ITIMER_REAL, case.get('watchdog', WATCHDOG), 1.0)
+    # case['fd_headroom']: the run gets that many file descriptors more than are open now (soft RLIMIT_NOFILE): a long history
+    # under the finite descriptor limit every process has
+    old_limit = None
+    if case.get('fd_headroom') is not None:
+        import resource
+        gc.collect()
+        old_limit = resource.getrlimit(resource.RLIMIT_NOFILE)
+        want = open_fds() + case['fd_headroom']
+        if old_limit[0] == resource.RLIM_INFINITY or want < old_limit[0]:
+            resource.setrlimit(resource.RLIMIT_NOFILE, (want, old_limit[1]))
     try:
         if mode == 'close':
             gen = eq.run_comparison()
@@ -182,6 +254,10 @@ def run_real_once(case, dedicated=True):
                 outcome = 'iter-raised'
             except TimeoutError:
                 outcome = 'stuck'
+            except KeyboardInterrupt:
+                # the consumer's answer to Ctrl-C: give up the run (the generator is dropped with this frame's reference)
+                outcome = 'interrupted' if intr['sent'] else 'escaped:KeyboardInterrupt'
+            intr['cancel'] = True
     except SystemExit:
         outcome = 'abort-exit'
     except Stuck:
@@ -200,6 +276,9 @@ def run_real_once(case, dedicated=True):
     dog['armed'] = False
     signal.setitimer(signal.ITIMER_REAL, 0)
     signal.signal(signal.SIGALRM, old_handler)
+    if old_limit is not None:
+        import resource
+        resource.setrlimit(resource.RLIMIT_NOFILE, old_limit)
     if dog['fired']:
         outcome = 'stuck'      # also when the interpreter swallowed it inside the finaliser of a dropped generator
     ended = time.time()
@@ -228,10 +307,43 @@ def run_real_once(case, dedicated=True):
                 served=[served[p] for p in order])
 
 
+OWN_SESSION_WALL = 45.0
+
+
+def run_in_own_session(case):
+    """run_real_once(case) in an interpreter of its own that leads its own session and process group (scripts that signal
+    their whole group).  Whatever happens there, this returns within OWN_SESSION_WALL seconds and the group is gone."""
+    import json
+    import subprocess
+    import sys
+    env = dict(os.environ, VERIF_OWN_SESSION='1', PYTHONPATH=os.pathsep.join(p for p in sys.path if p))
+    child = subprocess.Popen([sys.executable, os.path.abspath(__file__), '--own-session'], stdin=subprocess.PIPE,
+                             stdout=subprocess.PIPE, stderr=subprocess.DEVNULL, env=env, start_new_session=True, text=True)
+    try:
+        out, _ = child.communicate(json.dumps(case), timeout=OWN_SESSION_WALL)
+        lines = [l for l in out.splitlines() if l.startswith('RESULT ')]
+        if lines:
+            return json.loads(lines[-1][7:])
+        return dict(cmps=[], outcome='stuck', walls=[], children_after=0, waited=0.0, served=[],
+                    note='the interpreter running the script ended with code %r and no result' % child.returncode)
+    except subprocess.TimeoutExpired:
+        return dict(cmps=[], outcome='stuck', walls=[], children_after=0, waited=0.0, served=[],
+                    note='no result within %.0f s' % OWN_SESSION_WALL)
+    finally:
+        try:
+            os.killpg(child.pid, signal.SIGKILL)
+        except OSError:
+            pass
+        try:
+            child.communicate(timeout=5)
+        except Exception:       # pylint: disable=broad-except
+            pass
+
+
 def run_case(case):
     runs = []
     for attempt in range(3):
-        run = run_real_once(case)
+        run = run_in_own_session(case) if case.get('consume', ['full'])[0] == 'interrupt' else run_real_once(case)
         if attempt == 0 and not eqreal.G.has(case, ['exit0', 'exit1', 'hang', 'hang_deaf', 'drops', 'unloadable']) \
                 and case.get('consume', ['full'])[0] == 'full' and not case.get('kill_idle_after'):
             run['inproc'] = run_real_once(case, dedicated=False)['cmps']
@@ -248,3 +360,18 @@ def run_case(case):
     obs['inconclusive'] = sorted('%s/%s' % ps for ps in seen - confirmed)
     obs['all_walls'] = [r['walls'] for r in runs]
     return obs
+
+
+if __name__ == '__main__':
+    import json
+    import sys
+    if sys.argv[1:] == ['--own-session']:
+        # a fresh interpreter inherits IGNORED signals from whoever started it (the driver process also runs simulated workers
+        # in-process: whatever the worker's entry point does to signal dispositions has happened there): Ctrl-C as in a shell
+        signal.signal(signal.SIGINT, signal.default_int_handler)
+        signal.signal(signal.SIGTERM, signal.SIG_DFL)
+        signal.pthread_sigmask(signal.SIG_UNBLOCK, [signal.SIGINT, signal.SIGTERM, signal.SIGALRM])
+        result = run_real_once(json.loads(sys.stdin.read()))
+        sys.stdout.write('RESULT ' + json.dumps(result) + '\n')
+        sys.stdout.flush()
+        os._exit(0)      # (no interpreter shutdown: it would join a worker that a broken tree left behind)
